@@ -10,7 +10,9 @@ Init0 == [run |-> 0, skip |-> FALSE, errs |-> <<>>,
           owner |-> EmptyMap,    \* pid -> op (current session)
           check |-> "none", checkT |-> 0, live |-> FALSE]
 
-Due(o, t) == ~o.res /\ o.tmo >= 0 /\ o.w >= 0 /\ t >= o.w + o.tmo
+\* "an acknowledged operation ... fails at the first service at or after T": a QoS 0 publish is not an acknowledged
+\* operation, so nothing is demanded of it (the engine applies the timeout to it while its write completion is outstanding)
+Due(o, t) == ~o.res /\ o.ackd /\ o.tmo >= 0 /\ o.w >= 0 /\ t >= o.w + o.tmo
 
 Deferred(m, e) ==
     CASE m.check = "service" ->
@@ -34,7 +36,7 @@ OnComplete(m, e) ==
 OnClose(m) ==
     [m EXCEPT !.live = FALSE, !.check = "close",
               !.ops = MapAll(@, LAMBDA o : [o EXCEPT !.w = -1, !.sentConn = FALSE,
-                                                     !.cnt = IF o.sentConn /\ ~o.res THEN @ + 1 ELSE @])]
+                                                     !.cnt = IF o.sentConn /\ o.ackd /\ ~o.res THEN @ + 1 ELSE @])]
 
 Apply(m, e) ==
     IF e.ev = "Cfg" THEN [Init0 EXCEPT !.run = e.run, !.errs = m.errs, !.limit = e.retries]
@@ -42,7 +44,7 @@ Apply(m, e) ==
     ELSE IF e.ev = "Complete" THEN OnComplete(m, e)
     ELSE IF e.ev = "Tx" THEN
              (IF e.partial = 1 THEN m
-              ELSE IF e.op # 0 /\ Has(m.ops, e.op) /\ e.type \in {"PUBLISH", "SUBSCRIBE", "UNSUBSCRIBE"} /\ (e.type # "PUBLISH" \/ e.qos > 0)
+              ELSE IF e.op # 0 /\ Has(m.ops, e.op) /\ e.type \in {"PUBLISH", "SUBSCRIBE", "UNSUBSCRIBE"}
                    THEN [m EXCEPT !.ops[e.op].w = e.t, !.ops[e.op].sentConn = TRUE, !.owner = Put(@, e.pid, e.op)]
               \* on a resumed connection the PUBREL is the operation's packet: if its PUBLISH was not written on this
               \* connection the clock starts with the PUBREL
@@ -52,7 +54,7 @@ Apply(m, e) ==
     ELSE IF Follower(e) THEN m
     ELSE LET d == Deferred(m, e) IN
          IF d.skip THEN d
-         ELSE CASE e.ev = "Submit" -> [d EXCEPT !.ops = Put(@, e.op, [tmo |-> e.tmo, w |-> -1, res |-> FALSE, cnt |-> 0, sentConn |-> FALSE])]
+         ELSE CASE e.ev = "Submit" -> [d EXCEPT !.ops = Put(@, e.op, [tmo |-> e.tmo, w |-> -1, res |-> FALSE, cnt |-> 0, sentConn |-> FALSE, ackd |-> NeedsAck(e.kind, e.qos)])]
                 [] e.ev = "Service" /\ e.result = "ok" /\ e.state \in {"Connected", "PendingDisconnect"} /\ d.live -> [d EXCEPT !.check = "service", !.checkT = e.t]
                 [] e.ev = "Rx" /\ e.type = "CONNACK" /\ e.result = "ok" ->
                        [d EXCEPT !.live = TRUE, !.owner = IF e.sp = 0 THEN EmptyMap ELSE @]
